@@ -5,5 +5,7 @@ CONSTANTS
   DevArr = FALSE
   DevStale = TRUE
   DevEmpty = FALSE
+  Disturbs = FALSE
+  DevRows = FALSE
 INVARIANTS LengthInv StepOKModKnown
 CHECK_DEADLOCK FALSE
